@@ -47,7 +47,7 @@ def formula_set(tier):
 def shards(tier):
     fs = formula_set(tier)
     per = 12
-    return [{'formulas': [F.to_json(f) for f in fs[i:i + per]]} for i in range(0, len(fs), per)]
+    return [{'formulas': [F.to_json(f) for f in fs[i:i + per]]} for i in range(0, len(fs), per)] + [{'nesting': c} for c in sorted(NEST)]
 
 
 PLANS = (('dt_off', False), ('dt_on', False), ('dt_on', True), ('ct_off', False), ('ct_on', False), ('ct_on', True))
@@ -167,8 +167,85 @@ def judge(case):
     return None, sup
 
 
+# ---- deeply nested but perfectly ordinary specifications (a conjunction of 200 requirements, a long sum), run under the DEFAULT recursion
+# limit of the interpreter (the harness itself runs with a larger one)
+NEST = {
+    'and-chain': lambda d: ' and '.join(['(x >= 0)'] * (d + 1)),
+    'or-chain-right': lambda d: ' or ('.join(['(y <= 1)'] * (d + 1)) + ')' * d,
+    'sum': lambda d: ' + '.join(['x'] * (d + 1)) + ' >= 0',
+    'not': lambda d: 'not ' * d + '(x >= 0)',
+    'prev': lambda d: 'prev ' * d + '(x >= 0)',
+    'once': lambda d: 'once[0,1] ' * d + '(x >= 0)',
+    'parentheses': lambda d: '(' * d + 'x >= 0' + ')' * d,
+    'abs': lambda d: 'abs(' * d + 'x' + ')' * d + ' >= 0',
+}
+NEST_DEPTHS = (10, 25, 50, 100, 150, 200, 300)
+DEFAULT_RECURSION_LIMIT = 1000
+
+
+def site(case):
+    """open finding: the evaluators are recursive visitors, a specification nested about 150 operators deep exhausts Python's default
+    recursion limit at evaluate()/update() although parse() accepted it"""
+    if case.get('mode') == 'nesting' and case.get('depth', 0) >= 100 and 'RecursionError' in str(case.get('what', '')):
+        return 'C17-recursion-limit'
+    return None
+
+
+def nesting_case(case):
+    """message | None: a specification that parse() accepts must be evaluated normally"""
+    text = 'out = ' + NEST[case['construct']](case['depth'])
+    kind = case['kind']
+    if kind.startswith('ct') and case['construct'] == 'prev':
+        return None
+    old = sys.getrecursionlimit()
+    sys.setrecursionlimit(DEFAULT_RECURSION_LIMIT)
+    try:
+        k, spec = impl.outcome(impl.build, kind, text, ['x', 'y'])
+        if k == 'rtamt':
+            return None           # refused cleanly (C14 decides whether that is acceptable)
+        if k != 'ok':
+            return 'parse() raised %s' % (spec,)
+        w = {'x': [1.0, -1.0, 2.0], 'y': [0.0, 2.0, 1.0]}
+        if kind == 'dt_off':
+            k, r = impl.outcome(impl.dt_evaluate, spec, w)
+        elif kind == 'dt_on':
+            for i in range(3):
+                k, r = impl.outcome(impl.dt_update, spec, i, {v: w[v][i] for v in w})
+                if k != 'ok':
+                    break
+        elif kind == 'ct_off':
+            k, r = impl.outcome(impl.ct_evaluate, spec, kinds.grid_signal(w))
+        else:
+            k, r = impl.outcome(impl.ct_update, spec, kinds.grid_signal(w))
+    finally:
+        sys.setrecursionlimit(old)
+    if k != 'ok':
+        return 'a specification nested %d deep (%s) is accepted by parse() but %s raised %s' % (
+            case['depth'], case['construct'], 'evaluate()' if kind.endswith('off') else 'update()', str(r)[:120])
+    return None
+
+
+def run_nesting(res, mod, construct):
+    if True:
+        for depth in NEST_DEPTHS:
+            for kind in ('dt_off', 'dt_on', 'ct_off', 'ct_on'):
+                case = {'mode': 'nesting', 'construct': construct, 'depth': depth, 'kind': kind}
+                res.evaluations += 1
+                msg = nesting_case(case)
+                if msg:
+                    res.violation(mod, case, msg)
+                    res.outcomes['nested: raised'] += 1
+                else:
+                    res.outcomes['nested: ok'] += 1
+                    res.nontrivial += 1
+                res.digest(construct, depth, kind, msg)
+    res.sample({'spec': 'out = ' + NEST['and-chain'](3), 'depth': 3, 'recursion_limit': DEFAULT_RECURSION_LIMIT}, 1)
+
+
 def run_shard(shard, tier, res):
     mod = sys.modules[__name__]
+    if shard.get('nesting'):
+        return run_nesting(res, mod, shard['nesting'])
     for fj in shard['formulas']:
         f = F.from_json(fj)
         text = 'out = ' + F.pr(f)
@@ -192,6 +269,9 @@ def run_shard(shard, tier, res):
 
 
 def replay(case):
+    if case.get('mode') == 'nesting':
+        m = nesting_case(case)
+        return [m] if m else []
     m, _ = judge(case)
     return [m] if m else []
 
